@@ -796,7 +796,9 @@ class Gen:
             via = [d for _, d in incs if os.path.join(d, h["name"]) in h["paths"]]
             beside = {os.path.dirname(p) for p in h["paths"]}
             cwds = {ROOT, os.path.join(ROOT, "d1"), os.path.join(ROOT, "d2"), os.path.dirname(src)}
-            if via and r.random() < cfg.get("p_forced_rel", 0.0) and not (cwds & beside):
+            # (files of that name added outside the header table count too: the coincidence scenario)
+            here_too = any(os.path.join(c, h["name"]) in self._files for c in cwds)
+            if via and r.random() < cfg.get("p_forced_rel", 0.0) and not (cwds & beside) and not here_too:
                 # (also with the explicit "./" some build systems write: still a name for the quote chain)
                 forced[-1] = r.choice(["", "", "./"]) + h["name"]
         comp = r.choice(KNOWN_COMPILERS)
